@@ -63,6 +63,15 @@ def fit_cases(draw, formats2=('v1', 'v1', 'v2wav'), formats3=('v1', 'v1', 'v2wav
     else:
         c = draw(gen.fit_case_3d(max_models=5, max_filters=4, max_sources=1, formats=formats3))
         logmodels = None
+    if mode == '2d' and c['format'] == 'v1' and draw(st.integers(0, 5)) == 0:
+        # a grid of several hundred models (real grids hold 10^4..10^5): only a handful of fits are kept per source
+        nbig = draw(st.sampled_from([300, 700]))
+        nf0 = len(c['filters'])
+        base = c['grid']['logflux']
+        c['grid'] = {'names': ['g%04d' % i for i in range(nbig)], 'dup': None,
+                     'logflux': [[base[i % len(base)][j] + 0.37 * ((i * 7 + j * 3) % 11) - 0.013 * i for j in range(nf0)]
+                                 for i in range(nbig)]}
+        c['big_grid'] = True
     c['memmap'] = c['format'] != 'v1'   # fit() always uses the memory-mapping default
     nf = len(c['filters'])
     k = of.extinction_pattern(c['law']['wav'], c['law']['chi'], [f['wav'] for f in c['filters']])
@@ -73,6 +82,8 @@ def fit_cases(draw, formats2=('v1', 'v1', 'v2wav'), formats3=('v1', 'v1', 'v2wav
     nmin = draw(st.integers(0, 6))
     c['n_data_min'] = min(nmin, counts[-1])
     c['selector'] = draw(SELECTORS)
+    if c.get('big_grid'):
+        c['selector'] = draw(st.sampled_from([['N', 4], ['N', 1], ['F', 3.3], ['N', 40]]))
     c['output_convolved'] = draw(st.booleans())
     c['av_range'] = c['av_ranges'][0]
     return c
@@ -120,7 +131,7 @@ def run_fitfile(case, ctx):
     from astropy import units as u
     from sedfitter import Fitter
     from sedfitter.source import Source
-    labels = {'mode_' + case['mode'], 'format_' + case['format'], 'sel_' + case['selector'][0],
+    labels = {'mode_' + case['mode'], 'format_' + case['format'], 'sel_' + case['selector'][0], 'big_grid' if case.get('big_grid') else 'small_grid',
               'convolved' if case['output_convolved'] else 'no_convolved', 'n_data_min=%d' % case['n_data_min']}
     with ctx.tempdir() as d:
         mdir, dr = build(case, d)
